@@ -154,6 +154,48 @@ def run_trace(src, sk, decisions):
     return labels, list(world.dlog), kind == 'return', state['escaped']
 
 
+def gen_sibling_finally(rnd):
+    """several try/finally statements side by side (and nested) inside an enclosing try/finally, each with a jump that
+    has to run its own finally body and then the enclosing ones -- the shape in which the edges between finally
+    sections are shared by several jumps"""
+    k = [0]
+
+    def K():
+        k[0] += 1
+        return k[0]
+
+    def jump(in_loop):
+        c = rnd.choice(['return', 'return', 'raise'] + (['break', 'continue', 'break'] if in_loop else []))
+        return {'return': 'return T(%d)' % K(), 'raise': 'raise E0()', 'break': 'break', 'continue': 'continue'}[c]
+
+    def sib(ind, in_loop, depth):
+        pad = '    ' * ind
+        out = [pad + 'try:']
+        if depth < 2 and rnd.random() < 0.3:
+            for _ in range(rnd.randint(1, 2)):
+                out += sib(ind + 1, in_loop, depth + 1)
+        if rnd.random() < 0.85:
+            out += [pad + '    if D(%d):' % K(), pad + '        ' + jump(in_loop)]
+        out += [pad + '    T(%d)' % K()]
+        if rnd.random() < 0.25:
+            out += [pad + 'except E0:', pad + '    T(%d)' % K()]
+        out += [pad + 'finally:', pad + '    T(%d)' % K()]
+        return out
+    lines = ['def f(a, b, c):']
+    in_loop = rnd.random() < 0.5
+    ind = 1
+    if in_loop:
+        lines.append('    while D(%d):' % K() if rnd.random() < 0.5 else '    for i1 in L(%d):' % K())
+        ind = 2
+    pad = '    ' * ind
+    lines.append(pad + 'try:')
+    for _ in range(rnd.randint(2, 3)):
+        lines += sib(ind + 1, in_loop, 0)
+    lines += [pad + 'finally:', pad + '    T(%d)' % K()]
+    lines.append('    return T(%d)' % K())
+    return '\n'.join(lines) + '\n'
+
+
 def decision_vectors(rnd, n):
     out = [[], [1], [1, 0], [0, 1, 1], [1, 1, 0, 1], [2, 1, 0, 2, 1, 0, 1]]
     while len(out) < n:
@@ -221,7 +263,8 @@ def check(run):
                # dense nesting of try/finally inside finally bodies with jumps
                ('finally-nest', progs.Opts(reads='none', rich_finally=True, jump_in_handler_finally=True, max_stmts=16, max_depth=6,
                                            finally_prob=0.85, only={'if', 'try', 'while', 'for', 'break', 'continue', 'return', 'expr'}))]
-    weights = [0.4, 0.1, 0.15, 0.1, 0.1, 0.15]
+    streams.append(('sibling-finally', None))
+    weights = [0.35, 0.1, 0.15, 0.1, 0.1, 0.1, 0.1]
     seen_src = set()
     pi = 0
     tcount = 0
@@ -240,7 +283,7 @@ def check(run):
         else:
             cdv = None
             sname, opts = rnd.choices(streams, weights)[0]
-            src = progs.gen_function(rnd, opts)
+            src = progs.gen_function(rnd, opts) if opts is not None else gen_sibling_finally(rnd)
         if src in seen_src:
             continue
         seen_src.add(src)
